@@ -2274,11 +2274,7 @@ bool NifFile::RenameDuplicateShapes() {
 	};
 
 	bool renamed = false;
-	auto nodes = GetChildren<NiNode>();
-
-	auto root = GetRootNode();
-	if (root)
-		nodes.push_back(root);
+	auto nodes = GetNodes();
 
 	for (auto& node : nodes) {
 		int dupCount = 0;
